@@ -199,3 +199,22 @@ def Wd.add : Wd → Wd → Wd
   | w, _ => w
 
 end Simpleline
+
+namespace Simpleline
+
+mutual
+  /-- `Container.add(item)` on the container reached from `w` by the child indices `path` (items of window / list containers,
+  the child of a center widget is index 0); a path that does not lead to a container changes nothing -/
+  def Wd.addAt : Wd → List Nat → Wd → Wd
+    | w, [], x => w.add x
+    | .window st title items, i :: p, x => .window st title (addAtList items i p x)
+    | .list st cm c cw sp kp u nw items, i :: p, x => .list st cm c cw sp kp u nw (addAtList items i p x)
+    | .center st child, _ :: p, x => .center st (child.addAt p x)
+    | w, _ :: _, _ => w
+  def addAtList : List Wd → Nat → List Nat → Wd → List Wd
+    | [], _, _, _ => []
+    | it :: its, 0, p, x => it.addAt p x :: its
+    | it :: its, i + 1, p, x => it :: addAtList its i p x
+end
+
+end Simpleline
